@@ -1,30 +1,28 @@
 """JSON observation of harness/l1info -> Coq term of type lcase (Model/L1InfoCases.v), shared by C11 and by the
-l1infotreesync parts of C04 (reorg = never seen) and C07 (all-or-nothing block processing).
+l1infotreesync parts of C04 (reorg = never seen) and C07 (all-or-nothing block processing, clean retry).
 
-Use from props/c04.py and props/c07.py (they own the property ids; this module adds no id):
+Use from props/c04.py and props/c07.py (they own the property ids; this module adds no id), exactly like props/ger_common.py:
 
     import l1info_common
     def extra_checks(chk):
-        n, mism, viol = l1info_common.run_c04_part(chk.seed, chk.tier)      # or run_c07_part
-        chk.cov["l1info_cases"] = n
-        chk.cov["l1info_mismatches"] = mism
-        for case in viol:                                                   # concrete failing inputs (harness output objects)
-            path = vlib.write_replay(chk.pid, chk.seed, "input", dict(case=case, harness="l1info",
-                                     what="l1infotreesync: a query answers differently from the twin run (spec_asif)"))
-            chk.violations.append((path, ""))
-        if mism and not viol:
-            chk.obligation_broken("l1infotreesync store model no longer corresponds to the processor on %d case(s)" % mism,
-                                  theorem="correspondence L1InfoCases.corr")
+        l1info_common.run_c04_part(chk)        # resp. run_c07_part(chk)
 
-`run_c04_part(seed, tier)` / `run_c07_part(seed, tier)` build harness/l1info against $VERIF_REPO (tag verif), generate the
-scenarios with `-prop c04` / `-prop c07` (plus corpus/C04/l1info_*.jsonl resp. corpus/C07/l1info_*.jsonl when present),
-transcribe every case into coq/cases/Cases_<C04L1|C07L1>_k.v and evaluate L1InfoCases.corr (model = real processor, main and
-twin run) and L1InfoCases.spec_asif (every facade query of the reorged / faulted run = the twin run of the REAL code that only
-ever saw the surviving blocks / never saw a fault) by vm_compute.
-They return (n_cases, mismatch_count, violation_cases); (0, -1, []) when the harness or the case files do not build/evaluate.
-A replay of one violation: write its "in" object as one line of a .jsonl file and run
-    build/h_l1info -replay that.jsonl -out out.jsonl
+Both functions take the vlib.Check object. They build the Coq targets of the L1 info store (Model/L1InfoCases.vo,
+Properties/C11.vo - the store theorems live there), build harness/l1info against $VERIF_REPO (tag verif), run it with
+`-prop c04` / `-prop c07` (after the corpus files corpus/C04/l1info_*.jsonl resp. corpus/C07/l1info_*.jsonl, if any) on the REAL
+l1infotreesync processor, transcribe every case into coq/cases/Cases_<pid>l1infoc04_k.v / ...c07_k.v and evaluate by vm_compute
+  L1InfoCases.corr       model (Model/L1InfoStore.v: process_block with storage faults, reorg, restart) = implementation, main and twin run
+  L1InfoCases.spec_asif  every one of the 20 facade queries of the reorged / faulted run = the twin run of the REAL code that only ever
+                         saw the surviving blocks / never saw a fault.
+They append to the passed Check exactly what Check.step_compare appends:
+  chk.violations   (replay file, "")                        concrete failing input (spec_asif false)
+                   (replay file, " no-failing-input-found")  only the correspondence / a Coq target / the harness broke
+  chk.known_hits   nothing (no known finding class in these parts)
+  chk.cov["l1info_store"]  coverage numbers of this part (rule, evaluations, distinct_nontrivial, mismatches, distribution, sample)
+`bin/check C04 --replay <file>` re-runs a replay file written here (field harness = "l1info_c04" / "l1info_c07"); replay files of
+other harnesses are skipped.
 """
+import json
 import os
 
 import vlib
@@ -36,7 +34,6 @@ CODES = {"ok": 0, "inconsistent": 1, "fault": 2, "constraint": 3, "notfound": 4,
 QCODES = {"ok": 0, "notfound": 1, "notprocessed": 2, "noblock0": 3}
 TABLES = {"block": "TBlock", "leaf": "TLeaf", "l1root": "TL1Root", "l1rht": "TL1Rht", "rroot": "TRollupRoot",
           "rrht": "TRollupRht", "verify": "TVerify", "init": "TInit"}
-MAKE_TARGETS = ["theories/Model/L1InfoCases.vo"]
 
 
 class Ctx:
@@ -202,45 +199,121 @@ def distribution(outs):
 # ---------------------------------------------------------------------------------------------------------------
 # C04 / C07 parts
 # ---------------------------------------------------------------------------------------------------------------
+PART_TARGETS = ["theories/Properties/C11.vo", "theories/Model/L1InfoCases.vo"]
+RULES = {
+    "c04": ("random L1 histories (info updates with matching V2 announcements, batch verifications with zero / unchanged / repeated exit roots, "
+            "InitL1InfoRootMap) with 1-3 rounds of {blocks, reorg at the first block / inside / at the tip / above the tip, optional nested "
+            "reorg, optional restart, snapshot, continuation on the new fork (every second time re-including the logs of the first dropped "
+            "block, i.e. the same GER again in a new block), snapshot}; the twin run of the real processor only ever processes the surviving "
+            "blocks; every snapshot asks all 20 data queries of the facade; non-trivial = at least one reorg that deleted a block; "
+            "distinct = distinct op list"),
+    "c07": ("random L1 histories of blocks with 0-6 events; about half of the blocks are first processed with an injected storage fault (SQL "
+            "trigger raising ABORT on the statement that would be the k-th successful write to one of block / l1info_leaf / l1_info_root / "
+            "l1_info_rht / rollup_exit_root / rollup_exit_rht / verify_batches / l1info_initial, k chosen so that it fires), sometimes twice, "
+            "sometimes followed by a process restart, then processed again without fault; the twin processes every block once without "
+            "fault; non-trivial = at least one fault fired; distinct = distinct op list"),
+}
 
-def _run_part(pid, prop, seed, tier, n):
-    rc, out = vlib.coq_make(MAKE_TARGETS, timeout=900)
+
+def cases_n(tier):
+    return 12 if tier == "quick" else 240
+
+
+def _nontrivial(prop, o):
+    if prop == "c07":
+        return o["in"]["ops"] if any(r == "fault" for r in o.get("res") or []) else None
+    seen = set()
+    for x in o["in"]["ops"]:
+        if x["k"] == "block":
+            seen.add(x["num"])
+        elif x["k"] == "reorg" and any(n >= x["b"] for n in seen):
+            return o["in"]["ops"]
+    return None
+
+
+def _run_part(chk, prop):
+    pid = chk.pid
+    tag = "l1info_" + prop
+    cov = {"rule": RULES[prop], "harness": "harness/l1info -prop " + prop}
+    chk.cov["l1info_store"] = cov
+    rc, out = vlib.coq_make(PART_TARGETS, timeout=1500)
     if rc != 0:
-        return 0, -1, []
+        chk.obligation_broken("make %s failed:\n%s" % (" ".join(PART_TARGETS), out[-2500:]), theorem="theories/Properties/C11.v")
+        return
     rc, out, exe = vlib.build_harness("l1info")
     if rc != 0:
-        return 0, -1, []
+        chk.obligation_broken("harness l1info does not build against the current source (tag verif):\n" + out[-3000:],
+                              theorem="correspondence harness l1info -prop " + prop)
+        return
     wd = os.path.join(vlib.BUILD, pid)
     os.makedirs(wd, exist_ok=True)
     outs = []
-    cdir = os.path.join(vlib.VERIF, "corpus", pid[:3])
-    if os.path.isdir(cdir):
-        for name in sorted(os.listdir(cdir)):
-            if name.startswith("l1info_") and name.endswith(".jsonl"):
-                of = os.path.join(wd, "corpus_" + name)
-                rc, _ = vlib.run_harness(exe, ["-replay", os.path.join(cdir, name), "-out", of, "-tier", tier])
-                if rc != 0:
-                    return 0, -1, []
-                outs += vlib.read_jsonl(of)
-    of = os.path.join(wd, "cases.jsonl")
-    rc, _ = vlib.run_harness(exe, ["-prop", prop, "-seed", str(seed), "-n", str(n), "-out", of, "-tier", tier])
-    if rc != 0:
-        return 0, -1, []
-    outs += vlib.read_jsonl(of)
-    if any(o.get("err") for o in outs):
-        return len(outs), -1, []
+    of = os.path.join(wd, tag + ".jsonl")
+    if chk.replay is not None:
+        with open(chk.replay) as f:
+            rp = json.load(f)
+        if rp.get("harness") != tag:
+            cov["skipped"] = "replay file belongs to another harness"
+            return
+        inp = os.path.join(wd, tag + "_replay_in.jsonl")
+        with open(inp, "w") as f:
+            for c in rp.get("cases", [rp.get("case")]):
+                f.write(json.dumps(c["in"] if isinstance(c, dict) and "in" in c else c) + "\n")
+        runs = [["-replay", inp, "-out", of, "-tier", chk.tier]]
+    else:
+        runs = []
+        cdir = os.path.join(vlib.VERIF, "corpus", pid)
+        if os.path.isdir(cdir):
+            for name in sorted(os.listdir(cdir)):
+                if name.startswith("l1info_") and name.endswith(".jsonl"):
+                    runs.append(["-replay", os.path.join(cdir, name), "-out", os.path.join(wd, tag + "_corpus_" + name), "-tier", chk.tier])
+        runs.append(["-prop", prop, "-seed", str(chk.seed), "-n", str(cases_n(chk.tier)), "-out", of, "-tier", chk.tier])
+    for args in runs:
+        rc, o = vlib.run_harness(exe, args, timeout=1500)
+        if rc != 0:
+            chk.obligation_broken("harness l1info %s failed (rc=%d):\n%s" % (" ".join(args), rc, o[-3000:]),
+                                  theorem="correspondence harness l1info -prop " + prop)
+            return
+        outs += vlib.read_jsonl(args[args.index("-out") + 1])
+    errs = [o["err"] for o in outs if o.get("err")]
+    if errs:
+        chk.obligation_broken("harness l1info reported errors: %s" % errs[:3], theorem="correspondence harness l1info -prop " + prop)
+        return
     shard = max(1, (len(outs) + 5) // 6)
-    mism, viol, _ = vlib.eval_cases(pid, IMPORTS, [coq_case(o) for o in outs], "lcase", "corr", "spec_asif", shard_size=shard)
+    mism, viol, log = vlib.eval_cases(pid + tag.replace("_", ""), IMPORTS, [coq_case(o) for o in outs], "lcase", "corr", "spec_asif",
+                                      shard_size=shard)
     if mism is None:
-        return len(outs), -1, []
-    return len(outs), len(mism), [outs[i] for i in viol]
+        chk.obligation_broken("L1 info store case file did not evaluate (model broken or transcription error):\n" + log[-2500:],
+                              theorem="correspondence L1InfoCases.corr / spec_asif")
+        return
+    keys = {json.dumps(k, sort_keys=True) for k in (_nontrivial(prop, o) for o in outs) if k is not None}
+    cov.update(evaluations=len(outs), distinct_nontrivial=len(keys), traces_validated_against_impl=len(outs) - len(mism),
+               correspondence_mismatches=len(mism), spec_violations_raw=len(viol), mismatch_indices=mism[:20], violation_indices=viol[:20],
+               input_distribution=distribution(outs), samples=[outs[len(outs) // 2]] if outs else [])
+    if viol:
+        # one replay per run is enough: the first failing case (all failing cases are listed in it)
+        x = outs[viol[0]]
+        path = vlib.write_replay(pid, chk.seed, "input", dict(
+            case=x, harness=tag, finding_key=None, failing_cases=len(viol),
+            what="L1 info tree store (l1infotreesync processor): spec_asif is false on what the implementation returned for this input: %s"
+                 % ("a facade query of the faulted run answers differently from the fault-free twin run" if prop == "c07"
+                    else "a facade query after a reorg answers differently from the twin that never saw the dropped blocks")))
+        chk.violations.append((path, ""))
+    else:
+        only_mism = [i for i in mism if i not in set(viol)]
+        if only_mism:
+            path = vlib.write_replay(pid, chk.seed, "obligation", dict(
+                case=outs[only_mism[0]], cases=[outs[i] for i in only_mism[:5]], harness=tag,
+                theorem="correspondence L1InfoCases.corr (L1 info store model vs l1infotreesync processor) no longer checks on %d case(s); "
+                        "the property predicate spec_asif still holds on the implementation's outputs" % len(only_mism)))
+            chk.violations.append((path, " no-failing-input-found"))
 
 
-def run_c04_part(seed, tier):
-    """l1infotreesync part of C04: returns (n_cases, mismatch_count, violation_cases)."""
-    return _run_part("C04L1", "c04", seed, tier, 12 if tier == "quick" else 200)
+def run_c04_part(chk):
+    """C04 over the L1 info tree store: reorgs vs a twin that never saw the dropped blocks. Mutates chk (violations, cov)."""
+    _run_part(chk, "c04")
 
 
-def run_c07_part(seed, tier):
-    """l1infotreesync part of C07: returns (n_cases, mismatch_count, violation_cases)."""
-    return _run_part("C07L1", "c07", seed, tier, 12 if tier == "quick" else 200)
+def run_c07_part(chk):
+    """C07 over the L1 info tree store: storage faults + retry vs a fault-free twin. Mutates chk (violations, cov)."""
+    _run_part(chk, "c07")
